@@ -66,7 +66,7 @@ class StandardAtmosphere:
         for i, H in enumerate(H_array):
             b = 0
 
-            while b < 6 and H > self._H_b[b]:
+            while b < 7 and H > self._H_b[b]:
                 T_M_b = self._T_0+self._T_M_b[b]+273.15 # Layer base temp
                 H_lim = min(H, self._H_b[b+1])
                 if abs(self._L_M_b[b])<1e-6:
